@@ -380,8 +380,13 @@ class Consumption:
                             mm = 'callee-eager'
                         out.append(self._mk(fi, node, mm, tgt.key))
             if 'return' in modes and not out:
-                # the callee hands the value back: follow the call result
-                return self.classify_result(fi, call, tgt.key, depth, seen)
+                # the callee hands the value back as it is: what happens
+                # to the call result happens to the value (returned again,
+                # looped over ...) -- it is not wrapped in a lazy view
+                res = self.classify(fi, call, call, depth, seen)
+                for u in res:
+                    u.via = u.via or tgt.key
+                return res or mk('test', tgt.key)
             return out or mk('test', tgt.key)
         if isinstance(tgt, model.ClassInfo):
             return mk('escape', tgt.key)
